@@ -210,6 +210,16 @@ def failure_points(plan, recon):
                  "subst-undefined", "surplus-section"]
         for inj in TF.enumerate_injections(plan["ir"], plan["uni"], kinds):
             pts.append({"inj": inj})
+        # include graph faults: a resource that includes itself, a fragment
+        # that includes the top resource again, an include of a resource that
+        # does not exist, each at the end and at the start of the resource
+        top = plan["top"]
+        for k, url in enumerate(sorted(plan["uni"]["res"])):
+            where = "end" if (k + rot) % 2 else "start"
+            pts.append({"cycle": [url, url, where]})
+            if url != top:
+                pts.append({"cycle": [url, top, "end"]})
+            pts.append({"cycle": [url, url + ".missing", where]})
     else:
         # torn writes of schema resources: truncate each at a few offsets
         for url in sorted(plan["store"]):
@@ -243,6 +253,14 @@ def apply_point(plan, store, pt):
         for u, ls in res.items():
             st[u] = TF.join(ls)
         return st, [], "text:" + pt["inj"]["kind"]
+    if "cycle" in pt:
+        url, target, where = pt["cycle"]
+        st = dict(store)
+        line = "%include " + target + "\n"
+        st[url] = (store[url] + line) if where == "end" else \
+            (line + store[url])
+        return st, [], ("include-missing" if target.endswith(".missing")
+                        else "include-cycle")
     if "torn" in pt:
         key, cut = pt["torn"]
         st = dict(store)
